@@ -126,6 +126,10 @@ class Rec:
       self.mentions = [("segment_names", n, o) for n, o in segs]
       self.pairs = [(segs[i], segs[i + 1]) for i in range(len(segs) - 1)]
       self.overlaps = f[3].split(",") if len(f) > 3 else ["*"]
+      if len(segs) > 1 and self.overlaps != ["*"] and \
+          len(self.overlaps) == len(segs):
+        # as many overlaps as segments: circular, the last step closes it
+        self.pairs.append((segs[-1], segs[0]))
     elif rt in ("E", "G"):
       if f[1] != "*":
         self.defines = f[1]
